@@ -6,6 +6,7 @@ ordered operand pairs (declarations and bare interfaces) compared with the model
 Oracle: the statement's laws evaluated directly in the harness (its own flattening, reachability, placement rule);
 flattened() and operand purity are checked inside the executor."""
 from .. import core, runner
+from . import worldcommon
 from . import c03
 
 THEOREMS = ["ZI.Decl.C20_iter", "ZI.Decl.C20_mem", "ZI.Decl.C20_sub", "ZI.Decl.C20_add", "ZI.Decl.mem_dedupe", "ZI.Decl.dedupe_nodup",
@@ -234,8 +235,14 @@ def check(tier):
         for idx, msg in oracle(chk if m == "c" else _Null(), lines, outs):
             s, e = runner.script_of(lines, idx)
             fails.append(dict(mode=m, script=[l for l in lines[s:e] if l.split()[0] in ("reset", "iface", "class", "decl")] + [lines[idx]], message=msg, observed=outs[idx]))
+    # class / instance / super-proxy specifications under declaration histories: flattened() and membership against iteration
+    wf = worldcommon.stale_stream("C20", ("FLAT-STALE", "IN-STALE"), dict(quick=40, thorough=800), "flattened() / membership")(chk, tier)
+    worldcommon.report_world(chk, wf)
+    fails += [dict(f, script=f["script"] or ["-"]) for f in wf]
     seen = set()
     for f in fails:
+        if f.get("layer") == "world":
+            continue
         k = f["script"][-1].split()[0]
         if k in seen or len(seen) >= 3:
             continue
@@ -256,6 +263,8 @@ def check(tier):
 
 def replay(path):
     rep = runner.load_replay(path)
+    if rep.get("layer") == "world":
+        return worldcommon.replay_world("C20", rep, path)
     script = rep["script"]
     mode = rep.get("mode", "c")
     out = core.run_impl("declalg", script, mode)
